@@ -75,6 +75,39 @@ class Fac:
         if n == "mono": k = int(p[1]); return p[0] * t ** (k + 1) / (k + 1)
         if n == "affine": return p[0] * t + p[1] * t * t / 2
 
+    def dtext(self, v):
+        """text of the derivative g'(v)"""
+        n, p = self.name, self.p
+        if n == "dampcos": return f"* exp neg * c {hx(p[0])} {v} + * c {hx(-p[0])} cos * c {hx(p[1])} {v} * c {hx(-p[1])} sin * c {hx(p[1])} {v}"
+        if n == "expdec": return f"* c {hx(-p[0])} exp neg * c {hx(p[0])} {v}"
+        if n == "rational":
+            D = f"+ c {hx(1.0)} * c {hx(p[0])} * {v} {v}"
+            return f"/ * c {hx(-2.0 * p[0])} {v} * {D} {D}"
+        if n == "gauss": return f"* * c {hx(-2.0 * p[0])} - {v} c {hx(p[1])} exp neg * c {hx(p[0])} * - {v} c {hx(p[1])} - {v} c {hx(p[1])}"
+        if n == "mono":
+            k = int(p[1])
+            return f"c {hx(0.0)}" if k == 0 else Fac("mono", p[0] * k, k - 1).text(v)
+        if n == "affine": return f"c {hx(p[1])}"
+        raise ValueError(n)
+
+    def dg(self, t):
+        n, p = self.name, self.p
+        if n == "dampcos": return math.exp(-p[0] * t) * (-p[0] * math.cos(p[1] * t) - p[1] * math.sin(p[1] * t))
+        if n == "expdec": return -p[0] * math.exp(-p[0] * t)
+        if n == "rational": return -2.0 * p[0] * t / (1.0 + p[0] * t * t) ** 2
+        if n == "gauss": return -2.0 * p[0] * (t - p[1]) * math.exp(-p[0] * (t - p[1]) ** 2)
+        if n == "mono": k = int(p[1]); return 0.0 if k == 0 else p[0] * k * t ** (k - 1)
+        if n == "affine": return p[1]
+
+    def dl1(self, a, b, want_sign=False):
+        """integral of |g'| between the limits (composite Simpson, 256 panels); with want_sign also whether g' keeps one sign there"""
+        lo, hi = min(a, b), max(a, b); n = 256; h = (hi - lo) / n
+        vals = [self.dg(lo + k * h) for k in range(n + 1)]
+        s = abs(vals[0]) + abs(vals[-1])
+        for k in range(1, n): s += (4 if k % 2 else 2) * abs(vals[k])
+        if want_sign: return s * h / 3, (min(vals) >= 0.0 or max(vals) <= 0.0)
+        return s * h / 3
+
     def R2(self, t):
         """antiderivative of t^2 g(t) (radial families only)"""
         n, p = self.name, self.p
@@ -82,6 +115,9 @@ class Fac:
         if n == "rational": k = p[0]; return t / k - math.atan(math.sqrt(k) * t) / k ** 1.5
         if n == "gauss" and p[1] == 0.0:
             k = p[0]; return -t * math.exp(-k * t * t) / (2 * k) + math.sqrt(math.pi) / (4 * k ** 1.5) * math.erf(math.sqrt(k) * t)
+        if n == "gauss":        # shell profile: t^2 = u^2 + 2 mu u + mu^2 with u = t - mu
+            k, mu = p; u = t - mu; E = math.exp(-k * u * u); F = math.erf(math.sqrt(k) * u)
+            return (-u * E / (2 * k) + math.sqrt(math.pi) / (4 * k ** 1.5) * F) - mu * E / k + mu * mu * math.sqrt(math.pi) / (2 * math.sqrt(k)) * F
         if n == "mono": k = int(p[1]); return p[0] * t ** (k + 3) / (k + 3)
         raise ValueError("no radial antiderivative for " + n)
 
